@@ -11,7 +11,7 @@
    of producer and worker threads) and EVERY set of raising deliveries [raises].
    Tie to /repo: harness/props/C32.py (K3: the real classes under the controlled interleaving of a
    producer thread with scheduler worker threads, compared step-for-step with this system). *)
-From RxVerif Require Import Base.Prelude Core.Lts Core.LtsFacts Core.SchedObs Core.SchedObsFacts.
+From RxVerif Require Import Base.Prelude Core.Lts Core.LtsFacts Core.SchedObs Core.SchedObsFacts Core.SchedObsFacts2.
 Local Open Scope nat_scope.
 
 (* the is_acquired handshake: at most one `run` is pending on the scheduler, being scheduled or
@@ -97,6 +97,71 @@ Theorem C32_observe_on :
 Proof. exact so_observe_on. Qed.
 Print Assumptions C32_observe_on.
 
+(* "on the target scheduler": every delivery is made by a thread that is a worker of the target
+   scheduler (the worker loop is in its program) and that has started a pending `run` before *)
+Theorem C32_on_worker :
+  forall raises progs sched tid i,
+  In (tid, OEnter i) (c_log (so_run raises progs sched)) ->
+  In (tid, OPop) (c_log (so_run raises progs sched)) /\
+  exists p, nth_error progs tid = Some p /\ In OWork p.
+Proof. exact so_on_worker. Qed.
+Print Assumptions C32_on_worker.
+
+(* ... hence a thread whose program has no worker loop (a producer) never delivers *)
+Theorem C32_producer_never_delivers :
+  forall raises progs sched tid p i,
+  nth_error progs tid = Some p -> ~ In OWork p ->
+  ~ In (tid, OEnter i) (c_log (so_run raises progs sched)).
+Proof. exact so_producer_never_delivers. Qed.
+Print Assumptions C32_producer_never_delivers.
+
+(* ReplaySubject's call pattern end to end: ONE thread enqueues [ids] and then calls ensure_active,
+   any number of scheduler workers: the delivered sequence is always a prefix of [ids]; at quiescence
+   without a fault it IS [ids] and every delivery has returned *)
+Theorem C32_replay_style :
+  forall raises ids nworkers sched,
+  let c := so_run raises ((map OEnq ids ++ [OEnsure]) :: repeat [OWork] nworkers) sched in
+  (exists rest, ids = entered (untag (c_log c)) ++ rest) /\
+  (quiescent c = true -> so_flt (c_sh c) = false ->
+     entered (untag (c_log c)) = ids /\ left (untag (c_log c)) = ids).
+Proof. exact so_replay_style. Qed.
+Print Assumptions C32_replay_style.
+
+(* which states are dead (ANY state, reachable or not): no thread can step iff every thread is finished
+   or is a worker waiting for work (inside its loop or about to enter it), and nothing is pending on the
+   scheduler unless there is no such worker *)
+Theorem C32_dead_iff :
+  forall raises (c : config),
+  (forall tid, tstep so_start (so_act raises) c tid = c) <->
+  (forall tid t, nth_error (c_ths c) tid = Some t -> finished t = true \/ waiting t) /\
+  (so_pend (c_sh c) = 0 \/ forall tid t, nth_error (c_ths c) tid = Some t -> ~ waiting t).
+Proof. exact so_dead_iff. Qed.
+Print Assumptions C32_dead_iff.
+
+(* progress: a non-quiescent state with a worker waiting inside its loop, in which no thread stands in
+   front of a worker loop it has not entered yet, has an enabled step *)
+Theorem C32_progress :
+  forall raises (c : config),
+  quiescent c = false ->
+  (exists w t, nth_error (c_ths c) w = Some t /\ t_cur t = Some LW_pop) ->
+  (forall tid t r, nth_error (c_ths c) tid = Some t -> t_cur t = None -> t_todo t <> OWork :: r) ->
+  exists tid, tstep so_start (so_act raises) c tid <> c.
+Proof. exact so_progress. Qed.
+Print Assumptions C32_progress.
+
+(* the side condition is needed: [quiescent] does not count a worker that has not entered its loop as
+   idle, so this REACHABLE state (everything delivered, worker 1 waiting, worker 2 never scheduled) is
+   not quiescent and yet no thread can step.  An artefact of the definition, not of the code *)
+Theorem C32_progress_without_side_condition_refuted :
+  let c := so_run (fun _ => false) [producer [1]; [OWork]; [OWork]] [0;0;0;1;1;1;1;1;1;1] in
+  quiescent c = false /\
+  nth_error (c_ths c) 1 = Some (Thread (Some LW_pop) []) /\
+  c_ths c = [Thread None []; Thread (Some LW_pop) []; Thread None [OWork]] /\ so_pend (c_sh c) = 0 /\
+  entered (untag (c_log c)) = [1] /\
+  forall tid, tstep so_start (so_act (fun _ => false)) c tid = c.
+Proof. exact so_progress_without_side_condition_refuted. Qed.
+Print Assumptions C32_progress_without_side_condition_refuted.
+
 (* ---- non-vacuity ----------------------------------------------------------------- *)
 Definition C32_sched1 : list nat := [0;0;0;1;0;1;0;1;0;1;0;1;1;1;1;1;1;1;1;1;1;1;1;1].
 
@@ -139,4 +204,11 @@ Example C32_mutant_split_release_loses_wakeup :
   c_sh c = SO [2] false false 0 [1;2] /\
   c_ths c = [Thread None []; Thread (Some (inl LW_pop)) []] /\
   entered (untag (c_log c)) = [1].
+Proof. vm_compute. repeat split; reflexivity. Qed.
+
+(* the hypotheses of C32_progress hold in a reachable state: worker waiting in its loop, producer mid-call *)
+Example C32_witness_progress_hyps :
+  let c := so_run (fun _ => false) [producer [1;2]; [OWork]] [0;0;0;1;1;1;1;1;1;1;0] in
+  quiescent c = false /\ nth_error (c_ths c) 1 = Some (Thread (Some LW_pop) []) /\
+  c_ths c = [Thread (Some LE_lock) []; Thread (Some LW_pop) []].
 Proof. vm_compute. repeat split; reflexivity. Qed.
